@@ -610,6 +610,7 @@ def c16_case(rnd, cs, job, acc):
             v = effective(tree, tmulti.get("sc_effort", {}), sid)
             if v is not None:
                 t["effort_min"] = v
+                t.pop("effort_inherited", None)     # the override is this task's OWN effort line in the single-scenario text
             v = effective(tree, tmulti.get("sc_start", {}), sid)
             if v is not None:
                 t["start"] = v
